@@ -110,9 +110,10 @@ example : (locationEntry { name := "os".toList, declaredAt := (1, 7), filename :
 
 `C11_found` / `C11_site` say: IF the search succeeds, the position is right.  The property also needs the search
 to succeed whenever the bound name stands in the file after the statement start as a token of its own.
-That is false today in two ways (`Witness.C11.C11_stmt_false`): a name directly followed by `[`
-(`class A[T]:`, finding C11-pep695-type-params) and a name more than `windowAfter` lines below the statement start
-(finding C11-window-51-lines).  `C11_found_iff` is the exact partial statement: the search succeeds iff a
+That is false today (`Witness.C11.C11_stmt_false`): a name more than `windowAfter` lines below the statement
+start is not found (finding C11-window-51-lines).  (A name directly followed by `[`, `class A[T]:`, was a second
+counterexample until commit 50717df added `[` to the end delimiters.)
+`C11_found_iff` is the exact partial statement: the search succeeds iff a
 DELIMITED occurrence lies INSIDE THE WINDOW. -/
 
 /-- ASCII identifier characters -/
